@@ -173,6 +173,19 @@ static void do_sim(vf_case *c) {
 		VF_TRY(th, SIM[i].f(r, p, bk, q, bm));
 		if (th) { vf_fail(NULL, "%s raised %d", SIM[i].n, th); continue; }
 		expect_pt(SIM[i].n, r, &E, 1, NULL);
+		/* second run: result aliased to one of the points and / or un-normalised operands; the variation is a function of the scalars so that
+		 * every combination occurs over the sweep */
+		{ int al = (int)((mpz_fdiv_ui(c->v[3], 3) + mpz_fdiv_ui(c->v[6], 5) + i) % 3), rp = (int)((mpz_fdiv_ui(c->v[3], 2) + mpz_fdiv_ui(c->v[6], 7)) % 2), rq = (int)(mpz_fdiv_ui(c->v[6], 2));
+#if EP_ADD == PROJC
+			int drep_ = REP_PRJ;
+#elif EP_ADD == JACOB
+			int drep_ = REP_JAC;
+#else
+			int drep_ = REP_AFF;
+#endif
+			if (!al && !rp && !rq) al = 2;
+			ep_inject(p, &P, (rp && !P.inf) ? drep_ : REP_AFF, 3); ep_inject(q, &Q, (rq && !Q.inf) ? drep_ : REP_AFF, 5); ep_st *o = al == 1 ? p : al == 2 ? q : r; if (o == r) { memset(r, 0x5A, sizeof(ep_st)); r->coord = BASIC; }
+			char w[80]; snprintf(w, sizeof w, "%s[alias %d, reps %d %d]", SIM[i].n, al, rp, rq); vf_reseed(); VF_TRY(th, SIM[i].f(o, p, bk, q, bm)); if (th) vf_fail(NULL, "%s raised %d", w, th); else expect_pt(w, o, &E, 1, NULL); }
 	}
 	{ /* many-point form with n = 2 */
 		ep_t ps[2]; bn_t ks[2]; ep_new(ps[0]); ep_new(ps[1]); bn_new(ks[0]); bn_new(ks[1]);
